@@ -658,7 +658,17 @@ func reportViolation(c Check, sc *Scenario, v *Violation, hang bool, tier string
 	if v.Class != "data-race" && v.Class != "hang" && id != "C18B" {
 		// does it show in a fresh process at all? if not, it may need what earlier scenarios of the
 		// same worker left behind in the process; the scenario is then minimised with that history
-		if v0, harness := execFresh(id, sc, execLimit(id)); harness == "" && (v0 == nil || v0.Class != v.Class) {
+		v0, harness := execFresh(id, sc, execLimit(id))
+		for i := 0; i < 4 && harness == "" && (v0 == nil || v0.Class != v.Class); i++ {
+			// the code under test may have timing of its own (goroutines it starts itself): a violation that
+			// shows in some executions of one scenario is still a violation; its replay says so
+			v0, harness = execFresh(id, sc, execLimit(id))
+			if v0 != nil && v0.Class == v.Class {
+				fmt.Println("note: the violation does not show in every execution of this scenario - the code under test is not deterministic")
+				sc.Cfg["reproduces-only-sometimes"] = 1
+			}
+		}
+		if harness == "" && (v0 == nil || v0.Class != v.Class) {
 			if h := withHistory(id, sc, v.Class); h != nil {
 				fmt.Printf("the violation needs process-lifetime state: it reproduces in a fresh process after %d earlier scenario(s) of the same worker\n", len(h.Prelude))
 				sc = h
@@ -668,6 +678,9 @@ func reportViolation(c Check, sc *Scenario, v *Violation, hang bool, tier string
 	min := minimise(c, sc, v)
 	// confirm in a fresh process
 	v3, harness := execFresh(id, min, execLimit(id))
+	for i := 0; i < 6 && harness == "" && (v3 == nil || v3.Class != v.Class) && min.cfg("reproduces-only-sometimes") == 1; i++ {
+		v3, harness = execFresh(id, min, execLimit(id))
+	}
 	if harness != "" {
 		fmt.Println("MACHINERY:", harness)
 		return 2
@@ -723,7 +736,7 @@ func cmdReplay(args []string) int {
 		return 2
 	}
 	v, harness := execFresh(c.ID(), sc, execLimit(id))
-	if sc.Expect != nil && sc.Expect.Class == "data-race" {
+	if sc.Expect != nil && (sc.Expect.Class == "data-race" || sc.cfg("reproduces-only-sometimes") == 1) {
 		// stage B is not schedule-deterministic: the report needs both accesses to happen, try again
 		for i := 0; i < 20 && v == nil && harness == ""; i++ {
 			v, harness = execFresh(c.ID(), sc, execLimit(id))
